@@ -169,6 +169,10 @@ def gen_tasks(chk, tier):
     b = copy.deepcopy(a); b['cells'][0]['source'] = 'line one\nline 2\nline three\n'
     tasks.append({'op': 'diff', 'a': a, 'b': b, 'src': 'toolgrid',
                   'configs': [dict(ignore=0, use_color=uc, color_words=cw, **t) for t in G.all_tool_settings() for uc in (False, True) for cw in (False, True)]})
+    # the user's git configuration forces colour (color.ui = always): colour disabled must still mean no escape codes
+    tasks.append({'op': 'diff', 'a': a, 'b': b, 'src': 'git-color-always',
+                  'configs': [dict(ignore=0, use_color=uc, color_words=cw, git_color_always=True, **G.tools_for(rn))
+                              for rn in G.RENDERERS for uc in (False, True) for cw in (False, True)]})
     # equal notebooks: the empty diff
     for i in range(3):
         a = G.gen_notebook(r)
@@ -508,7 +512,11 @@ def run(tier, seed):
         if 'task_err' in res:
             chk.broken_obligation('runner:' + res['task_err'], res.get('msg', '')[-600:]); continue
         if 'merge_err' in res:
-            hist['merge-raised(not C16)'] = hist.get('merge-raised(not C16)', 0) + 1; continue
+            hist['merge-raised(not C16)'] = hist.get('merge-raised(not C16)', 0) + 1
+            # an error of the runner itself (not of nbdime's merge) must not pass as "not our subject"
+            if res['merge_err'] in ('AttributeError', 'NameError', 'ImportError') and ("'Args'" in res.get('msg', '') or 'runner' in res.get('msg', '')):
+                chk.broken_obligation('harness:decisions-runner-error', res.get('msg', '')[:300])
+            continue
         for ci in range(len(t['configs'])):
             nrender += 1
             sig, detail = judge_render(t, res, ci)
